@@ -13,6 +13,7 @@ for d in sorted(glob.glob('/verif/seeded/*')):
     keys=[k for k in keys if k][:2]
     note=m.get('verif_note','')
     caught = 'not detected (by design: '+note+')' if m.get('out_of_statement') else ('`./check %s quick`: %s' % (name.split('-')[0], ', '.join('`%s`'%k for k in keys)))
+    if m.get('open_gap'): caught = '**not detected** (open gap, no time left to answer it: ' + m['open_gap'] + ')'
     if m.get('initially_missed'): caught += ' — initially missed; ' + m['initially_missed']
     rows.append('| %s | %s | %s |' % (name, summ, caught))
 print('| Seeded change | What it does | Caught by |\n|---|---|---|')
